@@ -53,6 +53,7 @@ type FSPlan struct {
 	Twin     bool   `json:"twin,omitempty"` // additionally two overlapping calls (no faults): unpackzip: the same archive; file primitives: two writers with different content for the same destination
 	Corrupt  bool   `json:"corrupt,omitempty"` // unpackzip: additionally an archive one of whose entries is cut off: nothing may be published
 	corruptArchive bool // set on a copy of the plan while the damaged archive is prepared
+	BadTmp   bool   `json:"bad_tmp,omitempty"` // the explicitly given temporary directory does not exist
 	Mode     int    `json:"mode,omitempty"` // requested mode index
 	Net      []int  `json:"net,omitempty"`  // fetch: behaviour of the download transport per attempt (0 ok, 1 truncated body, 2 error mid-body, 3 status 500, 4 body longer than announced, 5 unknown length and connection dropped half way)
 }
@@ -87,6 +88,16 @@ func (H) Generate(prop string, rng *rand.Rand, tier string) any {
 	switch p.Prim {
 	case "writefile", "tempfile", "createatomic", "copyatomic", "replaceatomic", "fstreeput":
 		p.Twin = rng.IntN(3) == 0
+	}
+	switch p.Prim {
+	case "tempfile", "createatomic", "copyatomic", "replaceatomic":
+		if p.Explicit && rng.IntN(4) == 0 {
+			p.BadTmp = true
+			p.Twin = false
+		}
+		if (p.Dest == 2 && rng.IntN(2) == 0) || (p.Dest != 0 && p.Mode == 0 && rng.IntN(2) == 0) {
+			p.Dest = 3 // present and read-only (with no mode requested the replacement takes over the destination's mode)
+		}
 	}
 	if tier == "thorough" && rng.IntN(6) == 0 {
 		p.NewSize = 4
@@ -283,6 +294,11 @@ func (H) Execute(prop string, plan any, rc *simkit.RunCtx) {
 			writeOld(p, e, oldData, 0o644)
 		case 2:
 			writeOld(p, e, oldData, 0o600)
+		case 3:
+			writeOld(p, e, oldData, 0o444)
+		}
+		if p.BadTmp {
+			_ = os.RemoveAll(e.exp)
 		}
 		return e
 	}
@@ -290,6 +306,27 @@ func (H) Execute(prop string, plan any, rc *simkit.RunCtx) {
 	e := setup()
 	err, _, calls, nmut := runPrimitive(p, e, newData, simfs.Plan{CrashAt: -1, ErrAt: -1, ShortAt: -1})
 	s.executions++
+	if err != nil && p.BadTmp {
+		// the temporary directory the caller named cannot be used: failing is fine, as long as nothing happened
+		oldSt := ""
+		if p.Dest != 0 {
+			e2 := setup()
+			oldSt, _ = readState(p, e2)
+			e2.cleanup()
+		}
+		st, exists := readState(p, e)
+		switch {
+		case exists != (p.Dest != 0) || (exists && st != oldSt):
+			rc.Fail("C17.dest-fragment", "an operation that failed for lack of a usable temporary directory changed the destination ("+p.Prim+")", err.Error())
+		default:
+			if stray := strayFiles(p, e); stray != "" {
+				rc.Fail("C17.stray-outside-temp", "a failed or interrupted operation left a file outside the temporary location ("+p.Prim+")", "unusable temporary directory: "+stray)
+			}
+		}
+		rc.Probe("unusable-temp-dir")
+		e.cleanup()
+		return
+	}
 	if err != nil {
 		rc.Fail("C17.fault-free-error", "the primitive failed without any injected fault ("+p.Prim+")", err.Error())
 		e.cleanup()
@@ -434,6 +471,24 @@ func (H) Execute(prop string, plan any, rc *simkit.RunCtx) {
 			rc.Faults[k] += v
 		}
 		when := fmt.Sprintf("%s %s", p.Prim, fc.name)
+		if fc.fp.ErrAt >= 0 && !rc.Failed() {
+			// "flushed to stable storage before it is renamed into place": when the flush itself fails, nothing may be
+			// renamed onto the destination afterwards
+			k, failedSync := 0, ""
+			for _, c := range fcalls {
+				if !c.Mut {
+					continue
+				}
+				if k == fc.fp.ErrAt && c.Op == "fsync" && c.Err != "" && len(c.Paths) > 0 {
+					failedSync = c.Paths[0]
+				}
+				// (a retry with a fresh temporary file that is flushed successfully is fine)
+				if failedSync != "" && c.Op == "rename" && c.Err == "" && len(c.Paths) == 2 && c.Paths[0] == failedSync {
+					rc.Fail("C17.no-fsync-before-rename", "the temporary file was renamed onto the destination although flushing it had failed ("+p.Prim+")", when+lastCalls(fcalls))
+				}
+				k++
+			}
+		}
 		if readerFail != "" {
 			rc.Fail("C17.reader-partial", readerFail+" ("+p.Prim+")", when)
 			e.cleanup()
@@ -680,6 +735,15 @@ func runWrite(p *FSPlan, e *fsEnv, data []byte, src string) (err error) {
 	return nil
 }
 
+// explicitTmpPrim: primitives that take the temporary directory from the caller.
+func explicitTmpPrim(prim string) bool {
+	switch prim {
+	case "tempfile", "createatomic", "copyatomic", "replaceatomic":
+		return true
+	}
+	return false
+}
+
 func lastCalls(calls []simfs.Call) string {
 	var sb strings.Builder
 	sb.WriteString(" | calls:")
@@ -820,7 +884,8 @@ func strayFiles(p *FSPlan, e *fsEnv) string {
 		case strings.HasPrefix(path, e.dest+"/"):
 		case strings.HasPrefix(rel, "root/tmp/"), rel == "root/res_v1-0-0.bin.gz", rel == "root/pkg_v1-0-0.zip":
 		case strings.HasPrefix(path, e.tmp+"/"), strings.HasPrefix(path, e.exp+"/"):
-		case filepath.Dir(path) == filepath.Dir(e.dest) && strings.HasPrefix(filepath.Base(path), "."):
+		case filepath.Dir(path) == filepath.Dir(e.dest) && strings.HasPrefix(filepath.Base(path), ".") && !(p.Explicit && explicitTmpPrim(p.Prim)):
+			// (without an explicitly named temporary directory the destination's directory is the temporary location)
 		case strings.HasPrefix(filepath.Base(filepath.Dir(path)), ".") && filepath.Dir(filepath.Dir(path)) == filepath.Dir(e.dest):
 			// temp dir of the symlink helper next to the destination
 		default:
